@@ -274,6 +274,7 @@ def run_model(env, ops):
         op_tokens(env, op, tok)
     res = run_driver(tok)
     steps = [t for name, t in res if name == "o_step"]
+    checks = [t[0] for name, t in res if name == "o_check"]
     assert len(steps) == len(ops), (len(steps), len(ops))
     out = []
     for t in steps:
@@ -281,6 +282,8 @@ def run_model(env, ops):
         for s in t[2:]:
             fields.append(None if s == "None" else parse_desc(s))
         out.append(dict(cls=t[0], obs=None if t[1] == "None" else parse_desc(t[1]), fields=fields))
+    for o, c in zip(out, checks):
+        o["check"] = c
     return out
 
 
@@ -592,6 +595,7 @@ def run_history(env, ops, reg, out, tag, label, hook=None, frame=False, x=None):
     hook(i, op, cls, x_before, x_after, snap, obs_hash) is called after every call.
     Returns dict(classes, snaps, obs, x, compared)."""
     model = run_model(env, ops)
+    env.last_model = model
     x = x or env.new_object()
     classes, snaps, obss = [], [], []
     comparing = True
